@@ -30,6 +30,9 @@ func gatedCalls(a []byte) []world.Action {
 		uni.Call(a, a, vmcommon.BuiltInFunctionESDTLocalBurn, uni.F, uni.Big(1)),
 		uni.Create(a, uni.S, 1),
 		uni.Create(a, uni.S, 2),
+		uni.Call(a, a, vmcommon.BuiltInFunctionESDTNFTCreate, uni.S, []byte{1, 0, 0, 0, 0, 0, 0, 0, 0}, []byte("n"), uni.Big(100), []byte("h"), []byte("a"), []byte("u")),
+		uni.Call(a, a, vmcommon.BuiltInFunctionESDTNFTCreate, uni.S, []byte{1, 0, 0, 0, 0, 0, 0, 0, 1}, []byte("n"), uni.Big(100), []byte("h"), []byte("a"), []byte("u")),
+		uni.Call(a, a, vmcommon.BuiltInFunctionESDTNFTCreate, uni.S, []byte{0, 2}, []byte("n"), uni.Big(100), []byte("h"), []byte("a"), []byte("u")),
 		uni.Call(a, a, vmcommon.BuiltInFunctionESDTNFTAddQuantity, uni.S, uni.Big(1), uni.Big(1)),
 		uni.Call(a, a, vmcommon.BuiltInFunctionESDTNFTBurn, uni.S, uni.Big(1), uni.Big(1)),
 		uni.Call(a, a, vmcommon.BuiltInFunctionESDTNFTAddURI, uni.S, uni.Big(1), []byte("v")),
@@ -107,6 +110,16 @@ func undisciplinedRoleMenu(w *world.World, o menuOpts) []world.Action {
 	var acts []world.Action
 	for _, a := range users(o) {
 		for _, tok := range [][]byte{uni.F, uni.S} {
+			// several roles in one message, held and not held ones mixed, in both orders
+			if len(spec.Roles(w.Get(a), string(tok))) > 0 {
+				acts = append(acts, uni.UnSetRole(a, tok, uni.AllRoles...))
+				rev := make([]string, len(uni.AllRoles))
+				for i, r := range uni.AllRoles {
+					rev[len(rev)-1-i] = r
+				}
+				acts = append(acts, uni.UnSetRole(a, tok, rev...))
+				acts = append(acts, uni.UnSetRole(a, tok, vmcommon.ESDTRoleNFTAddQuantity, vmcommon.ESDTRoleNFTBurn, vmcommon.ESDTRoleLocalBurn))
+			}
 			for _, r := range uni.AllRoles {
 				if !o.thorough && (r == vmcommon.ESDTRoleNFTAddURI || r == vmcommon.ESDTRoleNFTBurn) {
 					continue
